@@ -1140,6 +1140,7 @@ func (z *zipSel) visit(r *selRoles, depth int) *selRoles {
 		}
 	})
 	z.prefixUses(r)
+	z.prefixCutRoot(r, "C20.R17") // x_c20_i.go
 	if depth < 3 {
 		for _, tb := range z.tablesOf(r) {
 			for i, er := range tb.elems {
